@@ -82,3 +82,44 @@ for _q in ("_xyz_to_lonlat_rad", "_xyz_to_lonlat_deg", "_normalize_xyz", "_lonla
              ensures=[f"forall(0, n, lambda i: eqr({a}[i], old({a})[i]))" for a in _ps],
              options={"frames": True, "abstract": True,
                       "callee_variants": {"uxarray.grid.coordinates." + c: "arrays" for c in ("_normalize_xyz", "_xyz_to_lonlat_rad")}})
+
+# ---- centroid builders (C04 "centres the source does not supply are the normalised mean of the element's corner unit vectors") ---------
+# caller-side elementwise view of the proved _normalize_xyz (its value contract is proved for a generic element above)
+contract("uxarray.grid.coordinates._normalize_xyz", variant="elementwise", trusted=True, props=["C04"],
+         sizes=["n"], params={"x": "arr(real, n)", "y": "arr(real, n)", "z": "arr(real, n)"},
+         returns="tuple(arr(real, n), arr(real, n), arr(real, n))",
+         # component c of the result at position i is normc(x[i], y[i], z[i]) - the scalar function whose contract (unit length, same
+         # direction) is proved above for a generic element
+         ensures=["forall(0, n, lambda i: result[0][i] == ufr('norm_x', x[i], y[i], z[i]) and result[1][i] == ufr('norm_y', x[i], y[i], z[i]) "
+                  "and result[2][i] == ufr('norm_z', x[i], y[i], z[i]), pattern=lambda i: [result[0][i], result[1][i], result[2][i]])"],
+         notes="elementwise lifting of the scalar contract (the function uses elementwise numpy operations only)")
+
+_MX, _MY, _MZ = (f"mean1(node_{c}[face_nodes[f, 0:n_nodes_per_face[f]]])" for c in "xyz")
+contract("uxarray.grid.coordinates._construct_face_centroids", props=["C04"],
+         sizes=["n_node", "n_face", "W"],
+         params={"node_x": "arr(real, n_node)", "node_y": "arr(real, n_node)", "node_z": "arr(real, n_node)",
+                 "face_nodes": "arr(int, n_face, W)", "n_nodes_per_face": "arr(int, n_face)"},
+         requires=["forall(0, n_face, lambda f: 0 <= n_nodes_per_face[f] and n_nodes_per_face[f] <= W)",
+                   "forall(0, n_face, 0, W, lambda f, t: implies(t < n_nodes_per_face[f], 0 <= face_nodes[f, t] and face_nodes[f, t] < n_node))"],
+         returns="tuple(arr(real, n_face), arr(real, n_face), arr(real, n_face))",
+         # centre of face f = normalise(mean of the coordinates of exactly its own real corners, in each component)
+         ensures=[f"forall(0, n_face, lambda f: result[{k}][f] == ufr('norm_{c}', {_MX}, {_MY}, {_MZ}), pattern=lambda f: result[{k}][f])"
+                  for k, c in enumerate("xyz")],
+         loops={0: loop(counter="fi", invariants=[
+             f"forall(0, fi, lambda f: centroid_x[f] == {_MX} and centroid_y[f] == {_MY} and centroid_z[f] == {_MZ}, "
+             f"pattern=lambda f: [centroid_x[f], centroid_y[f], centroid_z[f]])"])},
+         options={"callee_variants": {"uxarray.grid.coordinates._normalize_xyz": "elementwise"}},
+         raises=[("Exception", "False", "only_if")])
+
+# edge centres: normalise(midpoint of the chord between the edge's two nodes) - the arc midpoint
+_EX, _EY, _EZ = (f"((node_{c}[edge_node_conn[e, 0]] + node_{c}[edge_node_conn[e, 1]]) / 2)" for c in "xyz")
+contract("uxarray.grid.coordinates._construct_edge_centroids", props=["C04"],
+         sizes=["n_node", "n_edge"],
+         params={"node_x": "arr(real, n_node)", "node_y": "arr(real, n_node)", "node_z": "arr(real, n_node)",
+                 "edge_node_conn": "arr(int, n_edge, 2)"},
+         requires=["forall(0, n_edge, 0, 2, lambda e, s: 0 <= edge_node_conn[e, s] and edge_node_conn[e, s] < n_node)"],
+         returns="tuple(arr(real, n_edge), arr(real, n_edge), arr(real, n_edge))",
+         ensures=[f"forall(0, n_edge, lambda e: result[{k}][e] == ufr('norm_{c}', {_EX}, {_EY}, {_EZ}), pattern=lambda e: result[{k}][e])"
+                  for k, c in enumerate("xyz")],
+         options={"callee_variants": {"uxarray.grid.coordinates._normalize_xyz": "elementwise"}},
+         raises=[("Exception", "False", "only_if")])
